@@ -108,8 +108,12 @@ func householderTridiagonalization(inSitu *InSitu, epsilon float64) (Matrix, Mat
     }
     s.Sqrt(s)
 
-    A.At(k+1,k+0).Set(s)
-    A.At(k+0,k+1).Set(s)
+    // if beta is zero the reflection is the identity and
+    // A(k+1,k) keeps its value (and sign)
+    if beta.GetFloat64() != 0.0 {
+      A.At(k+1,k+0).Set(s)
+      A.At(k+0,k+1).Set(s)
+    }
 
     for j := k+1; j < n; j++ {
       for i := k+1; i < n; i++ {
